@@ -674,7 +674,7 @@ void begin(const Config& cfg)
     S.spurious_left = cfg.spurious_budget;
     g_casfail_left = cfg.casfail_budget;
     g_ctor_sched = 0;
-    g_post_unlock_sched = 0;
+    g_post_unlock_sched = 1;   // default on; a client whose scripts carry schedule hints in decision counts switches it off
     g_latewake_left = cfg.latewake_budget;
     S.names.clear();
     S.ranges.clear();
